@@ -237,7 +237,8 @@ def d4_rejected(facts, rep):
             rep.ob('D4', 'K3', fn, 'a predecessor taken for reservation is parked in reserved_src or given back', ok, 'reserved predecessor dropped', ln=node['ln'])
     from rules.C15 import join_forwarding
     join_forwarding(facts, rep, 'D4')
-    rep.floor('D4', 13, 'rejection handling')
+    d4_offer_on_registration(facts, rep)
+    rep.floor('D4', 18, 'rejection handling')
 
 
 def d5_wait(facts, rep):
@@ -532,3 +533,77 @@ def d5_inline_bodies(facts, rep):
         rep.ob('D5', 'K4', fn, 'an inline (lightweight) body of %s [%s] starts only after the cancellation state was consulted' % (pname.split('::')[-2], variant), ok,
                'the lightweight body is run inside the sender\'s task without looking at the group context: it starts after graph::cancel() / '
                'after an exception cancelled the graph', ln=ln, key_extra='%s|%s' % (pname, variant))
+
+
+def d4_offer_on_registration(facts, rep):
+    """"A message that a successor rejects is kept and offered again": the senders that keep messages are told that a successor is
+    (again) willing to take one by register_successor - an edge is made, or a receiver that had reversed the edge (pull state)
+    gives it back.  Each of them must then look for something to hand over: from the point where the successor is entered into
+    the successor cache, a push attempt (a forwarding task is created / spawned, or the value is put directly) is reachable - in
+    the same function, or, when the registration sits in a helper of an aggregator handler (buffer_node::internal_reg_succ), in
+    the handler after the call.  Sibling agreement over the five keeping senders, frozen after reading each of them:
+    input_node, buffer_node (queue / priority_queue / sequencer inherit it), limiter_node, overwrite_node (write_once inherits),
+    join_node_base."""
+    KEEPERS = ('input_node', 'buffer_node', 'limiter_node', 'overwrite_node', 'join_node_base')
+    PUSH = ('spawn_put', 'try_put', 'try_put_task', 'spawn_in_graph_arena', 'enqueue_in_graph_arena', 'try_forward', 'create_put_task')
+
+    def push_attempt(f, e):
+        if not isinstance(e, int):
+            return False
+        nd = f.nodes[e]
+        if nd.get('k') != 'call':
+            return False
+        d = f.callee(e) or {}
+        if d.get('n') in PUSH:
+            return True
+        if d.get('n') == 'new_object' and 'task' in (d.get('q') or ''):
+            return True
+        return False
+
+    from rules.common import handler_iterations
+
+    def reachable_push(f, pos, registration=True):
+        # within one operation of an aggregator handler: the walk stops where the handler takes the next operation.
+        # Either order counts: the push attempt follows the registration, or (overwrite_node) the value was put to the new
+        # successor first and the successor is entered because it accepted.
+        adv = set(p_ for p_, _, _, _ in handler_iterations(f))
+        reached, ex, par = f.walk(pos, stop_elem=lambda p_, e: p_ in adv)
+        if any(push_attempt(f, f.elems(q[0])[q[1]]) for q in reached if q != pos):
+            return True
+        if registration:
+            for b, i, e in f.iter_elems():
+                if push_attempt(f, e):
+                    r2, _, _ = f.walk((b, i), stop_elem=lambda p_, e2: p_ in adv)
+                    if pos in r2:
+                        return True
+        return False
+    found = {}
+    for fn in facts.fns.values():
+        cls = (fn.cls or '')
+        short = cls.split('::')[-1]
+        if not cls.startswith(D2) or short not in KEEPERS:
+            continue
+        for pos, s, node, d in calls_named(fn, ('register_successor',)):
+            if not (d.get('cls') or '').endswith('_cache') and 'successor_cache' not in (d.get('cls') or ''):
+                continue
+            ok = reachable_push(fn, pos)
+            if not ok:
+                # registration inside a helper of the aggregator handler: look behind the call in its callers (and the callers of
+                # the virtual it overrides)
+                uids = [fn.u] + [u for u in fn.d.get('overrides', [])]
+                for u in uids:
+                    for (g, cpos, cs) in facts.callers(u):
+                        if reachable_push(g, cpos, registration=False):
+                            ok = True
+            key = (short, fn.p)
+            cur = found.get(key)
+            found[key] = (fn, node, (cur[2] if cur else False) or ok)
+    seen_classes = set(k[0] for k in found)
+    missing = [k for k in KEEPERS if k not in seen_classes]
+    if missing:
+        raise AnalysisBroken('successor registration of %s not found' % missing)
+    for (short, p), (fn, node, ok) in sorted(found.items()):
+        rep.ob('D4', 'K7', fn, '%s offers what it keeps when a successor is registered (%s)' % (short, p.split('::')[-1]), ok,
+               'no push attempt is reachable after the successor was entered: a message this node kept (because it was rejected, or arrived '
+               'before the edge existed) is never offered to the receiver that now (again) wants it - it stays in the graph for ever',
+               ln=node['ln'], key_extra='offer|%s|%s' % (short, p))
